@@ -2,7 +2,7 @@
    Only statements, each closed by [exact] of a lemma from Proofs/. *)
 From Tola Require Import Py.Base Model.Fragment Model.Scaffold Model.Fasta Model.Stream Model.FastaSpec
   Proofs.StreamFinal.
-From Tola Require Proofs.Stream.
+From Tola Require Proofs.Stream Proofs.FastaEndToEnd Proofs.FastaIndex.
 
 (* For every file/index through which the records named by the rows can be
    read (good_access, proved for every well-formed rendered FASTA under C04),
@@ -19,6 +19,20 @@ Theorem C03_write_scaffold_spec : forall file idx seqs buf L gap_char name rows 
   = Ok (GT :: name ++ LF :: wrap_body L body).
 Proof. exact write_scaffold_final. Qed.
 Print Assumptions C03_write_scaffold_spec.
+
+(* End to end with C04: for every well-formed rendered FASTA, the index the
+   real indexer builds from it (any index buffer), every stream buffer and line
+   length, any scaffold whose rows name records of that file is written as the
+   rows applied to the RECORDS' residues -- no access premise left *)
+Theorem C03_index_then_stream : forall w eol final_nl recs ibuf idx asm peak buf L gap_char name rows body,
+  fasta_wf w eol recs ->
+  index_fasta (render w eol final_nl recs) ibuf = Ok (idx, asm, peak) ->
+  1 <= buf -> (1 <= L)%nat -> gaps_nonneg rows ->
+  rows_bytes (Proofs.FastaEndToEnd.seqs_of recs) gap_char rows = Some body ->
+  write_scaffold (render w eol final_nl recs) idx buf (Z.of_nat L) gap_char name rows
+  = Ok (GT :: name ++ LF :: wrap_body L body).
+Proof. exact Proofs.FastaEndToEnd.index_then_stream. Qed.
+Print Assumptions C03_index_then_stream.
 
 (* the wrapped body consists of lines of exactly L residues, a last line of
    1..L, each followed by LF -- never an empty or over-long line -- and
